@@ -98,6 +98,8 @@ func (o outObs) human() interface{} {
 		return map[string]interface{}{"panic": o.Panic}
 	case "deadlock":
 		return "blocked forever"
+	case "transport":
+		return map[string]interface{}{"monitor": o.Panic}
 	}
 	rows := []string{}
 	for _, r := range o.Rows {
@@ -137,6 +139,8 @@ func (o outObs) coq() string {
 		return "ObsCrash"
 	case "deadlock":
 		return "ObsDeadlock"
+	case "transport":
+		return "ObsTransport"
 	}
 	panic("bad out kind")
 }
@@ -216,12 +220,15 @@ func (w *world) keys(s *monitor.Stats) []string {
 	s.WriteHeader(&b)
 	f := splitLine(&b)
 	if len(f) < w.nstatic {
-		return nil
+		return []string{"<header shorter than the static fields>"}
 	}
 	f = f[w.nstatic:]
 	var ks []string
 	for i := 0; i+4 < len(f); i += 5 {
 		ks = append(ks, strings.TrimSuffix(f[i], "_min"))
+	}
+	if len(f)%5 != 0 {
+		ks = append(ks, "<header fields not a multiple of 5>")
 	}
 	return ks
 }
@@ -231,7 +238,8 @@ func (w *world) rows(s *monitor.Stats) []snapObs {
 	for _, k := range w.keys(s) {
 		v := s.Value(k)
 		if v == nil {
-			rows = append(rows, snapObs{Name: k, N: -1})
+			// the header names a measure the result set has no value for
+			rows = append(rows, snapObs{Name: k + "<no value>"})
 			continue
 		}
 		rows = append(rows, snapObs{k, v.NumValue(), v.Min(), v.Max(), v.Avg(), v.Sum(), v.Dev()})
@@ -289,7 +297,20 @@ func (w *world) exec(o opIn) (res outObs) {
 	return
 }
 
-const blockDeadline = 1500 * time.Millisecond
+// an operation of the statistics code takes microseconds; one that has not
+// returned after this long (generous also on a loaded machine) is blocked
+const blockDeadline = 5 * time.Second
+
+// deadline for the monitor to register / to finish with its connections; once
+// one case of a run has hit it the run is failing anyway and later cases wait less
+var transportFailed = false
+
+func transportDeadline() time.Duration {
+	if transportFailed {
+		return 3 * time.Second
+	}
+	return 45 * time.Second
+}
 
 // guarded runs one operation; a panic in the code under test is an
 // observation, and so is an operation that never returns (mutex left locked)
@@ -298,13 +319,22 @@ func (w *world) guarded(o opIn) outObs {
 	go func() {
 		defer func() {
 			if r := recover(); r != nil {
-				ch <- outObs{Kind: "crash", Panic: fmt.Sprint(r)}
+				msg := fmt.Sprint(r)
+				if strings.HasPrefix(msg, "harness:") {
+					// a fault of this harness is never an observation of the implementation
+					ch <- outObs{Kind: "harnessfault", Panic: msg}
+					return
+				}
+				ch <- outObs{Kind: "crash", Panic: msg}
 			}
 		}()
 		ch <- w.exec(o)
 	}()
 	select {
 	case r := <-ch:
+		if r.Kind == "harnessfault" {
+			panic(r.Panic)
+		}
 		return r
 	case <-time.After(blockDeadline):
 		return outObs{Kind: "deadlock"}
@@ -331,17 +361,13 @@ type wireMeasure struct {
 // runTCP: bucket set-up, then all "wire" measures sent as JSON over in.Conns
 // real TCP connections (connection 0 through the client API of measure.go),
 // then the remaining operations once Listen has returned.
-func runTCP(in input) (outs []outObs, discard bool) {
+func runTCP(in input) (outs []outObs, notes []string) {
 	w := newWorld(in)
 	w.mon.SinkPort = 0
 	i := 0
 	for ; i < len(in.Ops) && (in.Ops[i].Op == "bucket" || in.Ops[i].Op == "new"); i++ {
 		outs = append(outs, w.guarded(in.Ops[i]))
 	}
-	listenDone := make(chan error, 1)
-	go func() { listenDone <- w.mon.Listen() }()
-	port := w.mon.VerifSinkPort()
-	addr := "127.0.0.1:" + strconv.Itoa(int(port))
 	nconn := in.Conns
 	if nconn < 1 {
 		nconn = 1
@@ -371,32 +397,57 @@ func runTCP(in input) (outs []outObs, discard bool) {
 		raw[c] = append(raw[c], r)
 		outs = append(outs, outObs{Kind: "none"})
 	}
+	// Whatever keeps the measures from reaching the monitor, or the monitor from
+	// finishing, is an OBSERVATION of the implementation (nothing here depends on
+	// the environment: loopback, ephemeral port, private network namespace): the
+	// operations that would have read the results report it instead.
+	connected := false
+	fail := func(why string) ([]outObs, []string) {
+		transportFailed = true
+		if connected {
+			monitor.EndAndCleanup()
+		}
+		w.mon.Stop()
+		for len(outs) < len(in.Ops) {
+			outs = append(outs, outObs{Kind: "transport", Panic: why})
+		}
+		return outs, notes
+	}
+	listenDone := make(chan error, 1)
+	go func() { listenDone <- w.mon.Listen() }()
+	portCh := make(chan uint16, 1)
+	go func() { portCh <- w.mon.VerifSinkPort() }()
+	var port uint16
+	select {
+	case port = <-portCh:
+	case err := <-listenDone:
+		return fail(fmt.Sprint("Listen returned before serving: ", err))
+	case <-time.After(transportDeadline()):
+		return fail("Listen did not bind a port")
+	}
+	addr := "127.0.0.1:" + strconv.Itoa(int(port))
 	// open every connection before anything is sent: the monitor stops as soon
 	// as its connection table becomes empty
 	if err := monitor.ConnectSink(addr); err != nil {
-		w.mon.Stop()
-		return nil, true
+		return fail("ConnectSink refused: " + err.Error())
 	}
+	connected = true
 	conns := make([]net.Conn, nconn)
 	for c := 1; c < nconn; c++ {
 		cn, err := net.Dial("tcp", addr)
 		if err != nil {
-			monitor.EndAndCleanup()
-			w.mon.Stop()
-			return nil, true
+			return fail("connection refused: " + err.Error())
 		}
 		conns[c] = cn
 	}
-	deadline := time.Now().Add(20 * time.Second)
+	deadline := time.Now().Add(transportDeadline())
 	for w.mon.VerifConns() < nconn {
 		if time.Now().After(deadline) {
-			monitor.EndAndCleanup()
-			w.mon.Stop()
-			return nil, true
+			return fail(fmt.Sprintf("only %d of %d reporting connections registered", w.mon.VerifConns(), nconn))
 		}
 		time.Sleep(time.Millisecond)
 	}
-	done := make(chan bool, nconn)
+	done := make(chan string, nconn)
 	go func() {
 		for k, m := range per[0] {
 			if trec[0][k] > 0 {
@@ -414,45 +465,48 @@ func runTCP(in input) (outs []outObs, discard bool) {
 			monitor.RecordSingleMeasureWithHost(m.Name, m.Value, m.Host)
 		}
 		monitor.EndAndCleanup()
-		done <- true
+		done <- ""
 	}()
+	connected = false // connection 0 is closed by its own goroutine
 	for c := 1; c < nconn; c++ {
 		go func(c int) {
 			enc := json.NewEncoder(conns[c])
-			ok := true
+			note := ""
 			for k, m := range per[c] {
+				var err error
 				if raw[c][k] != "" {
-					if _, err := conns[c].Write([]byte(raw[c][k])); err != nil {
-						ok = false
-					}
-					continue
+					_, err = conns[c].Write([]byte(raw[c][k]))
+				} else {
+					err = enc.Encode(m)
 				}
-				if err := enc.Encode(m); err != nil {
-					ok = false
+				if err != nil && note == "" {
+					// not a reason to drop the case: what is missing shows in the counts
+					note = fmt.Sprintf("connection %d: write %d failed: %v", c, k, err)
 				}
 			}
 			conns[c].Close()
-			done <- ok
+			done <- note
 		}(c)
 	}
 	for c := 0; c < nconn; c++ {
-		if !<-done {
-			discard = true
+		select {
+		case n := <-done:
+			if n != "" {
+				notes = append(notes, n)
+			}
+		case <-time.After(transportDeadline()):
+			return fail("the reporting connections could not deliver their measures")
 		}
 	}
 	select {
 	case <-listenDone:
-	case <-time.After(30 * time.Second):
-		w.mon.Stop()
-		return nil, true
-	}
-	if discard {
-		return nil, true
+	case <-time.After(transportDeadline()):
+		return fail("Listen did not return after every reporting connection was closed")
 	}
 	for ; i < len(in.Ops); i++ {
 		outs = append(outs, w.guarded(in.Ops[i]))
 	}
-	return outs, false
+	return outs, notes
 }
 
 func runAPI(in input) []outObs {
@@ -595,12 +649,9 @@ func run(raw json.RawMessage) lib.Case {
 	}
 	sort.Slice(in.Statics, func(i, j int) bool { return in.Statics[i][0] < in.Statics[j][0] })
 	var outs []outObs
+	var notes []string
 	if in.Mode == "tcp" {
-		var discard bool
-		outs, discard = runTCP(in)
-		if discard {
-			return lib.Case{Discard: true}
-		}
+		outs, notes = runTCP(in)
 	} else {
 		outs = runAPI(in)
 	}
@@ -634,11 +685,14 @@ func run(raw json.RawMessage) lib.Case {
 		if outs[i].Kind != "none" && !failed {
 			human = append(human, map[string]interface{}{"op": i, "kind": o.Op, "out": outs[i].human()})
 			// the entries after a crash / a blocked operation only repeat it
-			failed = outs[i].Kind == "crash" || outs[i].Kind == "deadlock"
+			failed = outs[i].Kind == "crash" || outs[i].Kind == "deadlock" || outs[i].Kind == "transport"
 		}
 		if len(outs[i].Rows) > 0 {
 			nontrivial = true
 		}
+	}
+	for _, n := range notes {
+		human = append(human, map[string]interface{}{"harness_note": n})
 	}
 	ctor := "Case"
 	if in.CountOnly {
@@ -1073,6 +1127,8 @@ func genTCPTime(rng *rand.Rand) input {
 	if in.Conns > 1 {
 		ms := genMeasures(rng, "wire", 1, 6)
 		for i := range ms {
+			// known values: keep their names apart from the _wall/_system/_user ones
+			ms[i].Name = strings.NewReplacer("_wall", "_w", "_user", "_u").Replace(ms[i].Name)
 			ms[i].Conn = 1 + rng.Intn(in.Conns-1)
 			ms[i].Host = rng.Intn(7) - 1
 		}
